@@ -20,6 +20,7 @@ def run(cmd, cwd, timeout=1500):
 def main():
     prop, k = sys.argv[1], sys.argv[2]
     src = sys.argv[3] if len(sys.argv) > 3 else '/tmp/wt_%s/_out/%s' % (prop, k)
+    store_as = sys.argv[4] if len(sys.argv) > 4 else k
     wt = '/tmp/cs_%s_%s' % (prop, k)
     out = {'property': prop, 'seed': k, 'source': src}
     subprocess.run(['git', '-C', '/repo', 'worktree', 'remove', '--force', wt], stdout=subprocess.DEVNULL, stderr=subprocess.DEVNULL)
@@ -30,6 +31,9 @@ def main():
     try:
         os.makedirs(os.path.join(wt, '_out', k))
         shutil.copy(os.path.join(src, 'demo.py'), os.path.join(wt, '_out', k, 'demo.py'))
+        for extra in os.listdir(src):
+            if extra not in ('demo.py', 'patch.diff', 'notes.md') and os.path.isfile(os.path.join(src, extra)):
+                shutil.copy(os.path.join(src, extra), os.path.join(wt, '_out', k, extra))
         demo = ['/venv/bin/python', '_out/%s/demo.py' % k]
         rc0, o0 = run(demo, wt, 600)
         out['demo_unpatched_exit'] = rc0
@@ -51,7 +55,7 @@ def main():
         print('%s-%s: demo unpatched exit %d, patched exit %d, suite %d passed%s -> %s' % (
             prop, k, rc0, rc1, out['suite_passed'], ' WITH FAILURES' if out['suite_failed'] else '', 'CONFIRMED' if ok else 'REJECTED'))
         if ok:
-            dst = '/verif/seeded/%s-%s' % (prop, k)
+            dst = '/verif/seeded/%s-%s' % (prop, store_as)
             os.makedirs(dst, exist_ok=True)
             for f in ('patch.diff', 'demo.py', 'notes.md'):
                 if os.path.exists(os.path.join(src, f)):
